@@ -344,7 +344,9 @@ func c05observe[V any](im c05impl[V], m *ordered.Map[string, V], model *c05model
 	})
 	check("MarshalJSON", func() string {
 		if m == nil {
-			return "" // json.Marshal of a nil pointer is "null" by encoding/json, not the method
+			m.MarshalJSON() // must not panic; json.Marshal of a nil pointer is "null" by encoding/json, not the method
+			m.MarshalYAML()
+			return ""
 		}
 		got, err := m.MarshalJSON()
 		if err != nil {
@@ -443,12 +445,19 @@ func c05observe[V any](im c05impl[V], m *ordered.Map[string, V], model *c05model
 			items = append(items, ordered.Tuple[string, V]{Key: e.k, Value: im.mk(e.v)})
 		}
 		ind := ordered.MapFromItems(items...)
-		wantEq := m != nil // a nil map is only equal to nil
-		if got := ordered.Equal(m, ind); got != wantEq {
-			return fmt.Sprintf("Equal(m, independent)=%v want %v", got, wantEq)
-		}
-		if got := ordered.Equal(ind, m); got != wantEq {
-			return fmt.Sprintf("Equal(independent, m)=%v want %v", got, wantEq)
+		if m == nil {
+			// nil versus an empty independently built map: the statement does not say whether they are equal
+			// (the code says no, like reflect.DeepEqual on nil and empty maps); only symmetry is required
+			if ordered.Equal(m, ind) != ordered.Equal(ind, m) {
+				return "Equal(nil, empty) is not symmetric"
+			}
+		} else {
+			if got := ordered.Equal(m, ind); !got {
+				return "Equal(m, independent)=false want true"
+			}
+			if got := ordered.Equal(ind, m); !got {
+				return "Equal(independent, m)=false want true"
+			}
 		}
 		if got := ordered.Equal(m, m); !got {
 			return "Equal(m, m)=false (not reflexive)"
@@ -787,8 +796,11 @@ func c05bfs[V any](w *report.W, im c05impl[V], ctor string, ops []c05op, depth i
 						var got bool
 						pan := report.Catch(func() { got = ordered.Equal(maps[i], maps[j]) })
 						want := pairStates[i].model == pairStates[j].model
-						if ctor == "nil" {
-							want = want && ((maps[i] == nil) == (maps[j] == nil))
+						if (maps[i] == nil) != (maps[j] == nil) {
+							// nil versus empty: not asserted (see EqualIndependent); still must not panic
+							if pan := report.Catch(func() { ordered.Equal(maps[i], maps[j]) }); pan == "" {
+								continue
+							}
 						}
 						if pan != "" || got != want {
 							kind, detail := "observer:EqualPairs", fmt.Sprintf("Equal(x,y)=%v want %v; x model %s, y model %s", got, want, pairStates[i].model, pairStates[j].model)
@@ -987,7 +999,10 @@ func c05replayOne[V any](im c05impl[V], p c05replayPayload) (string, bool) {
 		o, omodel, _, _ := c05replay(im, p.OCtor, p.Other)
 		var got bool
 		pan := report.Catch(func() { got = ordered.Equal(m, o) })
-		want := model.String() == omodel.String() && (m == nil) == (o == nil)
+		want := model.String() == omodel.String()
+		if (m == nil) != (o == nil) {
+			return "nil versus non-nil: not asserted", false
+		}
 		if pan != "" {
 			return "Equal panicked: " + pan, true
 		}
